@@ -1,7 +1,7 @@
 (** C08 — Max-memory policy: who may be evicted, in what order, and when. *)
 From stdpp Require Import gmap strings.
 From EV Require Import Base.Str Model.Value Model.Keyspace Model.Evict Model.ScriptEvict Spec.SpecEvict.
-From EV Require Import Proofs.EvictProofs.
+From EV Require Import Proofs.EvictProofs Proofs.EvictSound Proofs.EvictScript.
 Local Open Scope Z_scope.
 
 (** Every theorem is about one [adjustMemoryUsage] pass from an ARBITRARY extended state (any
@@ -21,17 +21,74 @@ Theorem C08_only_over_limit : forall h d es es' ok tr,
   (st_maxmem (es_st es) = 0 -> tr = []).
 Proof. exact only_over_limit. Qed.
 
-(** Partial: proved from every state in which the bookkeeping is sound ([cands_inv]: what the policy's
-    cache / the volatile index offers and is still stored has a deadline), together with: the initial
-    state is sound, eviction passes and deletions keep it sound.  NOT proved here: that [setValues],
-    [setExpiry] (the PERSIST case needs the caches to hold each key once), [getValues], [Flush] and the
-    cache updates keep it sound — that part is covered by the differential check only. *)
-Theorem C08_candidates_partial : forall h d es es' ok tr,
+(** [C08_candidates], in full.  [reachable es]: [es] is the empty server of some policy / limit / clock
+    ([init_estate]) followed by ANY finite sequence of primitives of the extended model, each with any
+    arguments ([estep]): [setValues] (incl. the overwrite of an expired entry), [setExpiry] with a deadline and
+    without (PERSIST; also on a missing or expired key), [getValues] with its lazy deletions, [deleteKey] (a
+    handler's, or the expiry sampler's: any keys), [Flush] of one database or all, the clock, [updateKeysInCache]
+    with any stamp / hints / database / key list (the parked cache-update goroutines, at any time, in any
+    order, any number of times), [adjustMemoryUsage].  From every such state, under a volatile policy no
+    eviction pass evicts a stored key that has no deadline, and the state after the pass is reachable again. *)
+Theorem C08_candidates : forall h d es es' ok tr,
+  reachable es -> adjust_memory_usage h d es = (es', ok, tr) ->
+  Forall victim_is_candidate tr /\ reachable es'.
+Proof. exact candidates_reachable. Qed.
+
+(** The same for the passes a cache update runs over all the databases after its touches. *)
+Theorem C08_candidates_update : forall now h d ks es es' n ok tr,
+  reachable es -> update_keys_in_cache now h d ks es = (es', n, ok, tr) ->
+  Forall victim_is_candidate tr /\ reachable es'.
+Proof. exact update_candidates_reachable. Qed.
+
+(** Stronger than asked: the victim of a volatile policy IS stored and HAS a deadline (in a reachable state
+    the policy's cache and the volatile index hold no stale key). *)
+Theorem C08_victims_have_deadline : forall h d es es' ok tr,
+  reachable es -> adjust_memory_usage h d es = (es', ok, tr) -> Forall victim_volatile tr.
+Proof. exact victims_volatile_reachable. Qed.
+
+(** The bookkeeping invariant holds in every reachable state ... *)
+Theorem C08_cands_inv_reachable : forall es, reachable es -> cands_inv es.
+Proof. exact cands_inv_reachable. Qed.
+(** ... because the stronger [sound] (each key at most once in each heap and recorded in [keys]; every entry
+    of the volatile policy's cache and every key of the volatile index is stored and has a deadline) holds
+    initially and is preserved by every primitive, ... *)
+Theorem C08_sound_preserved :
+  (forall now p m nf, sound (init_estate now p m nf)) /\
+  (forall es es', sound es -> estep es es' -> sound es') /\
+  (forall es, sound es -> cands_inv es).
+Proof. split; [exact sound_init|split; [exact sound_step|exact sound_cands_inv]]. Qed.
+(** ... by every handler (every program over the primitives, any arguments, whatever updates it starts), ... *)
+Theorem C08_handlers_reachable : forall R d (p : Prog.prog R) es sp,
+  reachable es -> reachable (fst (fst (e_run d p es sp))).
+Proof. intros R. exact (@e_run_reachable R). Qed.
+(** ... and by every line of the script machine that is compared with the implementation: after ANY
+    sequence of lines from the empty server the state is reachable, sound, and satisfies [cands_inv]. *)
+Theorem C08_script_states_sound : forall now p maxmem nf tick lines,
+  let w := world_after (EWorld (init_estate now p maxmem nf) tick [] []) lines in
+  reachable (ew_es w) /\ sound (ew_es w) /\ cands_inv (ew_es w).
+Proof. exact script_states_sound. Qed.
+
+(** From an ARBITRARY state (not necessarily reachable) whose bookkeeping is sound — the former [_partial]
+    statement, kept because it is about more states. *)
+Theorem C08_candidates_from_sound_bookkeeping : forall h d es es' ok tr,
   cands_inv es -> adjust_memory_usage h d es = (es', ok, tr) ->
   Forall victim_is_candidate tr /\ cands_inv es'.
 Proof. exact candidates. Qed.
 Theorem C08_candidates_init : forall now p m nf, cands_inv (init_estate now p m nf).
 Proof. exact cands_inv_init. Qed.
+
+(** Non-vacuity: volatile-lru, [a] persistent and [b] with a deadline, both touched, limit crossed:
+    [b] is evicted, [a] stays. *)
+Definition vwitness : estate :=
+  let v := VScal (SStr "vvvvvvvvvv") in
+  let es0 := init_estate 0 VolatileLRU 100 true in
+  let es1 := fst (e_set_values es0 0 [("a", v)]) in
+  let es2 := fst (e_set_values es1 0 [("b", v)]) in
+  e_set_expiry es2 0 "b" (Some 1000).
+Example C08_candidates_witness :
+  let '(es, n, ok, tr) := update_keys_in_cache 1 [] 0 ["a"; "b"] vwitness in
+  (n, ok, map ev_key tr, sorted_keys (get_db (es_st es) 0)) = (2, true, ["b"], ["a"]).
+Proof. vm_compute. done. Qed.
 
 (** LFU as the code has it; LRU for the order the property asks for ([es_newest_first = false]). *)
 Theorem C08_order :
@@ -79,7 +136,14 @@ Proof. vm_compute. done. Qed.
 
 Print Assumptions C08_noeviction.
 Print Assumptions C08_only_over_limit.
-Print Assumptions C08_candidates_partial.
+Print Assumptions C08_candidates.
+Print Assumptions C08_candidates_update.
+Print Assumptions C08_victims_have_deadline.
+Print Assumptions C08_cands_inv_reachable.
+Print Assumptions C08_sound_preserved.
+Print Assumptions C08_handlers_reachable.
+Print Assumptions C08_script_states_sound.
+Print Assumptions C08_candidates_from_sound_bookkeeping.
 Print Assumptions C08_order.
 Print Assumptions C08_stops.
 Print Assumptions C08_clean_removal.
